@@ -403,7 +403,7 @@ func genC17(r *Rng, idx int, tier string) *Scenario {
 		burstAt, burstLen = r.Intn(n), Pick(r, 15, 16, 17, 32, 40)
 	}
 	soakAt := -1
-	if idx%1000 == 999 {
+	if idx%999 == 998 {
 		soakAt = r.Intn(n) // a long-lived SA: more than 2^16 operations of one kind in a row somewhere in the history
 	}
 	for i := 0; i < n; i++ {
